@@ -169,7 +169,7 @@ SumBuf(S) == IF S = {} THEN 0 ELSE LET s == CHOOSE x \in S : TRUE IN Len(st[s].b
 PendingSignals == Cardinality({m \in q : m.typ = "SignalStage" /\ m.pers /\ m.id \notin done})
 C18_NeverLost == gh.sent = gh.consumed + SumBuf(DOMAIN st) + PendingSignals
 C18_NotSittingOnSignal == Quiescent => \A s \in DOMAIN st : st[s].status = "SUSPENDED" => st[s].buf = <<>>
-C18_ConsumedOnce == \A i, j \in DOMAIN gh.consumedNames : i # j => gh.consumedNames[i] # gh.consumedNames[j]
+C18_ConsumedOnce == P.sigSame \/ \A i, j \in DOMAIN gh.consumedNames : i # j => gh.consumedNames[i] # gh.consumedNames[j]
 C18_ResumeOncePerSignal == gh.resumes <= cnt.signals /\ gh.consumed <= gh.sent
 C18_TransientNoEffect_A == lbl'.name = "SignalDrop" => (st' = st /\ tk' = tk)
 C18_TransientNoEffect == [][C18_TransientNoEffect_A]_vars
